@@ -1106,6 +1106,13 @@ func justifyAssert(c *Ctx, cf *classFacts, fn *ssa.Function, ta *ssa.TypeAssert)
 		if why := payloadStoredByMaker(c, fn, ld.X.(*ssa.FieldAddr).X, ta, T); why != "" {
 			return why
 		}
+		// (g) a helper split out of slot functions: the object is a parameter, and at every call site the caller is a slot
+		// function of a table whose constructors all store a T (or such a helper itself) handing on its own object parameter
+		if p, ok := ld.X.(*ssa.FieldAddr).X.(*ssa.Parameter); ok {
+			if tbl := slotHelperTable(c, cf, p, T, 0); tbl != "" {
+				return "helper of the slot functions of " + tbl + " (every call site passes the slot function's own object): every constructor that installs this table stores a " + T + " payload (CLASS-PAYLOAD)"
+			}
+		}
 		// closures/helpers called only from slot functions are not handled: reviewed table
 		// class-name test: obj.class == C dominating, and all setters of class C store T
 		fa := ld.X.(*ssa.FieldAddr)
@@ -1332,4 +1339,38 @@ func storedPayloadBefore(fn *ssa.Function, obj ssa.Value, cell *ssa.Alloc, at ss
 		return false
 	}
 	return !reachableWithout(fn, at, func(i ssa.Instruction) bool { return good[i] })
+}
+
+// slotHelperTable: parameter p (an *object) is, at every call site of its function, the object parameter of a slot
+// function of one class table whose payload is always T - directly or through another such helper. Returns the table.
+func slotHelperTable(c *Ctx, cf *classFacts, p *ssa.Parameter, T string, depth int) string {
+	if depth > 2 {
+		return ""
+	}
+	table := ""
+	ok := c.argAtAllCallSites(p, func(arg ssa.Value, site ssa.CallInstruction) bool {
+		q, isParam := arg.(*ssa.Parameter)
+		if !isParam {
+			return false
+		}
+		caller := site.Parent()
+		tbl, isSlot := cf.slotFuncs[caller]
+		if !isSlot {
+			tbl = slotHelperTable(c, cf, q, T, depth+1)
+			if tbl == "" {
+				return false
+			}
+		} else if pl := cf.payloadOfClassVar[tbl]; len(pl) == 0 || !onlyType(pl, T) {
+			return false
+		}
+		if table != "" && table != tbl {
+			return false
+		}
+		table = tbl
+		return true
+	}, 0)
+	if !ok {
+		return ""
+	}
+	return table
 }
